@@ -44,10 +44,10 @@ pub fn plan(prop: &str) -> Vec<PlanEntry> {
 /// runs per quick check (deterministic count so that evidence is reproducible)
 pub fn quick_runs(prop: &str) -> u64 {
     match prop {
-        "C06" => 400,
-        "C07" => 48,
-        "C12" => 12_000,
-        _ => 24_000,
+        "C06" => 3200,
+        "C07" => 160,
+        "C12" => 24_000,
+        _ => 48_000,
     }
 }
 
@@ -73,6 +73,8 @@ pub fn nontrivial(prop: &str, r: &J) -> bool {
         "C15" => c.getu("closures_run") > 0 && (faults.getu("exit_pending") > 0 || probes.getu("defer_boxed_shape") > 0),
         "C16" => probes.getu("reactivate_sole") + probes.getu("reactivate_nonsole") > 0,
         "C20" => faults.getu("tls_api") > 0,
+        "C06" => e.get("fam").map(|f| f.getu("nodes") > 1 && f.getu("max_depth") > 0).unwrap_or(false),
+        "C07" => e.get("fam").map(|f| f.getu("max_depth") >= 1000).unwrap_or(false),
         "C17" => e.get("fam").map(|f| f.getu("concurrent_pairs") > 0 || f.getu("queue_ops") > 26).unwrap_or(false),
         "C18" => e.get("fam").map(|f| f.getu("traversals_overlapping_updates") > 0).unwrap_or(false) || ebr.getu("registered") > 2,
         _ => r.getu("switches") > 0,
